@@ -522,6 +522,10 @@ func (w *World) runScan(rec *OpRec) {
 		if op.CloseAt > 0 && i == op.CloseAt {
 			closeNow()
 		}
+		if op.Abandon > 0 && i == op.Abandon {
+			// the application forgets about the scanner
+			return
+		}
 		r, err := sc.Next()
 		it := ScanItem{Err: err, Step: e.StepNow()}
 		if err != nil {
